@@ -980,7 +980,7 @@ package res
 //@ ghostvar isnode arrb
 //@ ghostvar nr arr
 //@ ghostvar nlit arrb
-//@ pred nodeOK(c *node) = nr[ref(c)] >= 0 && imp(c.mounted, nr[ref(c)] == 0 && nlit[ref(c)] && len(c.params) == 0)
+//@ pred nodeOK(c *node) = nr[ref(c)] >= 0 && imp(c.mounted, nr[ref(c)] == 0 && nlit[ref(c)] && len(c.params) == 0) && ref(c.params) < nextRef()
 //@     && forall(k, 0, len(c.params), 0 <= c.params[k].idx && c.params[k].idx < nr[ref(c)])
 //@     && imp(c.hs != nil, forall(k, 0, len(c.hs.group), imp(len(c.hs.group[k].str) == 0, 0 <= c.hs.group[k].idx && c.hs.group[k].idx < nr[ref(c)])))
 //@ #   mown[mp]   the node that owns the children map mp (children maps are not shared)
@@ -1037,6 +1037,13 @@ package res
 //@   ghost store l#2 before :: set nr = store(nr, ref(n), ite(n.mounted, 0, nr[ref(l)] + 1))
 //@   ghost store l#2 before :: set isnode = store(isnode, ref(n), true)
 //@   ghost store nodes#1 after :: set mown = store(mown, ref(l.nodes), ref(l))
+//@   ghost store l#2 before :: assert p1: nr[ref(n)] >= 0 && imp(n.mounted, nr[ref(n)] == 0 && nlit[ref(n)] && len(n.params) == 0)
+//@   ghost store l#2 before :: assert p2: forall(k, 0, len(n.params), 0 <= n.params[k].idx && n.params[k].idx < nr[ref(n)])
+//@   ghost store l#2 before :: assert p3: imp(n.hs != nil, forall(k, 0, len(n.hs.group), imp(len(n.hs.group[k].str) == 0, 0 <= n.hs.group[k].idx && n.hs.group[k].idx < nr[ref(n)])))
+//@   ghost store l#2 before :: assert p4: imp(n.param != nil, childOK(n, n.param, false))
+//@   ghost store l#2 before :: assert p5: imp(n.wild != nil, childOK(n, n.wild, false))
+//@   ghost store l#2 before :: assert p6: forallint(k, imp(mapHasId(n.nodes, k), childOK(n, mapValId(n.nodes, k), true)))
+//@   ghost store l#2 before :: assert p7: imp(n.nodes != nil, mown[ref(n.nodes)] == ref(n) && ref(n.nodes) < nextRef())
 //@   ghost exit :: use open(l)
 //@   ensures ok: rn != nil && isnode[ref(rn)] && muxOK(m) && nlit[ref(m.root)]
 //@   ensures params: forall(k, 0, len(rparams), 0 <= rparams[k].idx && rparams[k].idx < nr[ref(rn)])
@@ -1046,4 +1053,5 @@ package res
 //@   loop 1 invariant 0 <= mountIdx && mountIdx <= rangeindex__1 + 1 && imp(!l.mounted, nr[ref(l)] + mountIdx == rangeindex__1 + 1)
 //@   loop 1 invariant forall(k, 0, len(params), 0 <= params[k].idx && params[k].idx + mountIdx < rangeindex__1 + 1) && imp(len(params) > 0, !nlit[ref(l)])
 //@   loop 1 invariant forallge(q, nextRef(), !isnode[q]) && (ref(params) == 0 || ref(params) >= old(nextRef()))
+//@   loop 1 invariant forallobj(x, isnode[x], ref(asptr(x, "*res.node").params) < old(nextRef()))
 //@   loop 2 invariant -1 <= rangeindex__2 && rangeindex__2 < len(params) + 0
